@@ -21,7 +21,7 @@ for d in sorted(os.listdir(SEEDED)):
     results = {}
     if ok:
         for chk in [pid] + EXTRA.get(d, []):
-            env = dict(os.environ, VERIF_REPO=wt, VERIF_NO_WIDEN="1")
+            env = dict(os.environ, VERIF_REPO=wt, VERIF_NO_WIDEN="1", VERIF_STALL_SECONDS=os.environ.get("VERIF_STALL_SECONDS", "120"))
             p = subprocess.run([os.path.join(VERIF, "check"), chk, "--tier", "quick"], env=env,
                                capture_output=True, text=True)
             out = p.stdout
